@@ -159,6 +159,7 @@ def check_db_roundtrip(fmt, entries, text):
 #      generates the cases, removed by it at exit), one sub-directory per worker process, emptied after every case
 _BASE = None
 def base_dir():
+    """called by the generator, i.e. by the process that will also run at exit"""
     global _BASE
     if _BASE is None or not os.path.isdir(_BASE):
         import atexit
@@ -170,19 +171,26 @@ def base_dir():
 @contextlib.contextmanager
 def scratch():
     cwd = os.getcwd()
-    d = os.path.join(base_dir(), 'w%d' % os.getpid())
-    os.makedirs(d, exist_ok=True)
+    own = _BASE is None or not os.path.isdir(_BASE)
+    if own:        # no run-wide base (replay, ad-hoc use): a directory of its own for this case
+        d = tempfile.mkdtemp(prefix='c06_')
+    else:
+        d = os.path.join(_BASE, 'w%d' % os.getpid())
+        os.makedirs(d, exist_ok=True)
     os.chdir(d)
     try:
         yield d
     finally:
         os.chdir(cwd)
-        for nm in os.listdir(d):
-            p = os.path.join(d, nm)
-            if os.path.isdir(p) and not os.path.islink(p):
-                shutil.rmtree(p, ignore_errors=True)
-            else:
-                os.unlink(p)
+        if own:
+            shutil.rmtree(d, ignore_errors=True)
+        else:
+            for nm in os.listdir(d):
+                p = os.path.join(d, nm)
+                if os.path.isdir(p) and not os.path.islink(p):
+                    shutil.rmtree(p, ignore_errors=True)
+                else:
+                    os.unlink(p)
 
 @contextlib.contextmanager
 def captured_stdout():
